@@ -164,15 +164,16 @@ CHECKS = {'C10': {'level': 'other',
  'C03': {'level': 'other',
          'engine': 'pyvc',
          'technique': 'contracts (pyvc, z3/cvc5) on the option-default functions, on _has_load_dependencies, on _apply_slot_to_stack (every block / routine / skip set: what is handed to the removal '
-                      'function) and on _remove_extraneous_slot_access (what is removed from every block); version-parametric fragment contracts (C01); bounded stand-ins: every option pair x '
-                      "versions on generated programs against the description's meaning, slot-kind x placement x observer scenarios, ABI subroutines and mutual / self recursion of every routine-kind "
-                      'pair under every setting',
+                      'function) on _remove_extraneous_slot_access (what is removed from every block) and on collect_unoptimized_slots (what is exempt); version-parametric fragment contracts (C01); '
+                      "bounded stand-ins: every option pair x versions on generated programs against the description's meaning, slot-kind x placement x observer scenarios, ABI subroutines and mutual "
+                      '/ self recursion of every routine-kind pair under every setting',
          'text': 'Proved: OptimizeOptions.optimize_scratch_slots / use_frame_pointers follow the documented defaults (v9 / v8) and honour / reject explicit requests; _has_load_dependencies is True '
                  'iff another load of the slot exists; every slot _apply_slot_to_stack hands to _remove_extraneous_slot_access is not skipped, has `store s` immediately followed by `load s` in the '
                  "current block and no other load in the routine; _remove_extraneous_slot_access replaces each block's ops by the filter of its own ops under a predicate that drops exactly the store "
-                 '/ load ops of the slots to be removed. The clause the property needs on top - the slot is stored nowhere else - is refuted: the recorded finding O3.4, recognised only when it is '
-                 'the sole failing clause and attributed exactly in the bounded part (the mismatch disappears when the multiply-stored slots are withheld). Whole-program independence of '
-                 '(scratch_slots, frame_pointers, version) is a bounded stand-in.',
+                 '/ load ops of the slots to be removed. collect_unoptimized_slots returns a set containing every slot an `int` op mentions, every reserved slot and every global slot, for any number '
+                 'of routines / blocks / ops. The clause the property needs on top - the slot is stored nowhere else - is refuted: the recorded finding O3.4, recognised only when it is the sole '
+                 'failing clause and attributed exactly in the bounded part (the mismatch disappears when the multiply-stored slots are withheld). Whole-program independence of (scratch_slots, '
+                 'frame_pointers, version) is a bounded stand-in.',
          'note': 'apply_global_optimizations (fix-point iteration) is not under contract; whole-program part bounded (labelled). Known finding O3.4 is reported as KNOWN-FINDING.',
          'design_ref': 'DESIGN.md 5/C03'},
  'C05': {'level': 'other',
